@@ -1436,7 +1436,7 @@ func (w *world) stepRemoveReadd(st Step) {
 func hasRich(es []gn.Elem) bool {
 	for _, e := range es {
 		switch e.Name {
-		case "ab", "a/b", "a1":
+		case "ab", "a/b", "a1", "aé":
 			return true
 		}
 	}
